@@ -1,6 +1,7 @@
 package props
 
 import (
+	"reflect"
 	"net/url"
 	"bufio"
 	"encoding/json"
@@ -70,6 +71,7 @@ const c13twoYang = `module two { namespace "urn:two"; prefix t; revision 2020-01
 const c13twoDoc = `{"w":[{"k":"full","bi":"a b","em":[null],"an":{"x":[1,2]},"un":"text","en":"b","id":"id1","de":1.25,"bo":true,"bn":"aGk=","u64":18446744073709551615,"ll":[1,2,3],"ls":["a","b"],"c":{"y":3,"l":[{"x":"1","n":1},{"x":"2"}],"cc":{"q":"s"}},"c2":{"z":1}},{"k":"bare"},{"k":"half","c":{"y":4},"c1":"v","un":7}],"two":[{"a":"p","b":1,"v":"v1","three":[{"x":"x1","y":"y1","z":1},{"x":"x1","y":"y2","z":2}]},{"a":"p","b":2},{"a":"q","b":1}],"c":{"in":[{"k1":1,"k2":true},{"k1":1,"k2":false}]}}`
 
 var c13twoMod *meta.Module
+var c13seMod *meta.Module
 
 func C13Worker(file string, from int) {
 	fh, err := os.Open(file)
@@ -252,6 +254,32 @@ func c13do(b *node.Browser, kind, a, bb string, vals map[string]interface{}) (re
 			return "error"
 		}
 		sel, err := node.NewBrowser(c13twoMod, n).Root().Find(a)
+		if err != nil {
+			return "error"
+		}
+		if sel == nil {
+			return "ok"
+		}
+		_, err = nodeutil.WriteJSON(sel)
+		return outcome(err)
+	case "sfind":
+		// a struct-backed store (nodeutil.Reflect over Go structs) whose list holds an entry with an empty key field
+		if c13seMod == nil {
+			m, err := parser.LoadModuleFromString(nil, `module se { namespace "urn:se"; prefix se; revision 2020-01-01; list l { key k; leaf k { type string; } leaf v { type int32; } } }`)
+			if err != nil {
+				return "PANIC:se-module-does-not-load"
+			}
+			c13seMod = m
+		}
+		item := reflect.StructOf([]reflect.StructField{{Name: "K", Type: reflect.TypeOf("")}, {Name: "V", Type: reflect.TypeOf(int64(0))}})
+		root := reflect.New(reflect.StructOf([]reflect.StructField{{Name: "L", Type: reflect.SliceOf(item)}}))
+		sl := reflect.MakeSlice(reflect.SliceOf(item), 3, 3)
+		sl.Index(0).Field(0).SetString("b")
+		sl.Index(1).Field(0).SetString(bb) // the second entry's key: empty in the interesting case
+		sl.Index(1).Field(1).SetInt(5)
+		sl.Index(2).Field(0).SetString("a")
+		root.Elem().Field(0).Set(sl)
+		sel, err := node.NewBrowser(c13seMod, nodeutil.ReflectChild(root.Interface())).Root().Find(a)
 		if err != nil {
 			return "error"
 		}
@@ -591,6 +619,11 @@ func C13(c *core.Ctx) {
 		for _, nm := range []string{"k", "bi", "em", "an", "un", "en", "id", "de", "bo", "bn", "u64", "ll", "ls", "c", "c/y", "c/l", "c/l/x", "c/l/n", "c/cc", "c/cc/q", "ch", "c1", "c2", "c2/z", "act", "act/i", "nt", "nt/e", "c/l/x/y", "c/y/z", "k/k"} {
 			for _, cmp := range []string{"", "=5", "='a'", "='a b'", "!=0", "<3", ">=1.5", "<='b'", "=true", "='id1'", "=18446744073709551615", "!='aGk='"} {
 				reqs = append(reqs, c13req{Kind: "jfind2", A: "w?where=" + url.QueryEscape(nm+cmp), Desc: "where on every kind of node"})
+			}
+		}
+		for _, key2 := range []string{"", "m", "b"} {
+			for _, p := range []string{"l", "l=a", "l=b", "l=", "l=zz", "l?where=v%3D5", "l=a/v"} {
+				reqs = append(reqs, c13req{Kind: "sfind", A: p, B: key2, Desc: fmt.Sprintf("struct-backed list whose second entry has the key %q", key2)})
 			}
 		}
 		// (d4) where/filter expressions along schema paths: containers on the way are absent in some entries
